@@ -2,8 +2,10 @@
 
 use crate::runner::Check;
 
+pub mod c01;
 pub mod c02;
 pub mod c03;
+pub mod c04;
 pub mod c07;
 pub mod c08;
 pub mod c09;
@@ -12,12 +14,13 @@ pub mod c11;
 pub mod c17;
 pub mod c12;
 pub mod c13;
+pub mod c16;
 pub mod c18;
 
 pub fn all() -> Vec<Check> {
-    vec![c02::check(), c03::check(), c07::check(), c08::check(), c09::check(), c10::check(), c11::check(), c17::check(), c12::check(), c13::check(), c18::check()]
+    vec![c01::check(), c02::check(), c03::check(), c04::check(), c07::check(), c08::check(), c09::check(), c10::check(), c11::check(), c17::check(), c12::check(), c13::check(), c16::check(), c18::check()]
 }
 
-pub fn probe_main(_args: &[String]) -> i32 {
-    2
+pub fn probe_main(args: &[String]) -> i32 {
+    c01::probe_main(args)
 }
